@@ -131,7 +131,7 @@ def _guard_dominance(col, rule="C17.R1"):
         ok, facts = bool(fx) and not unk, ""
         for e in fx:
             mk = S.match(e.key, ("key", S.V("d"))) if e.op == "delkey" and e.key is not None else None
-            if not (mk and any(S.match(c, ("empty", ("val", mk["d"]))) is not None for c in e.conds)):
+            if not (mk and any(c in (("empty", ("val", mk["d"])), ("uop", "not", ("val", mk["d"]))) for c in e.conds)):
                 ok, facts = False, f"{e.short()} under {[S.show(c, False) for c in e.conds]}"
         col.add(rule, "Manager.cleanup#only-empty-entries", ok, sx.loc(sx.fn),
                 "cleanup (not guarded) only deletes index entries whose multiset is empty", facts)
